@@ -292,7 +292,7 @@ for _k, _v in EXTRA.items():
 EXTRA5 = {
     "C06": " Fifth session: the real adaptive_euler_step is under contract for this property as well - every attempt (first and retried) is a step of the solver's own psi Laplacian (the operator that carries the pinned rows) on the caller's psi, and the arrays handed back are the answered attempt's result as it is, on every return path; native: scripted refusals of the first 0..3 attempts on a real solver, terminal sites stay at the terminal value.",
     "C08": " Fifth session: the time and voltage scales a user multiplies the dimensionless results with - Device.tau0 / V0 (and kappa, Lambda, conductivity) - are under contract on the pint model with a symbolic length-unit factor: tau0 = mu0 sigma lambda^2 in seconds, V0 = xi (K0 / d) / sigma in volts, stated in SI quantities of the film only (the same film in another length unit has the same scales); an explicit conductivity takes precedence, no conductivity is refused; native: one film stated in um / nm / mm.",
-    "C07": " Fifth session: the per-site rule of compute_voronoi_polygon_areas is under contract on the real code (real numpy on object arrays): the combinatorial structure of one cell is concrete - an interior cell with 4 Voronoi vertices, boundary cells with 1 and 2 Voronoi vertices whose site ends exactly two boundary edges, the site at different positions of the site list - every coordinate is a symbolic real (generic position: pairwise different abscissae) and the two geometric oracles are abstract (convex-hull routine: free area and convexity answers per POINT SET; angular sort: every permutation). Decided for all coordinates and oracle answers: interior cell = hull of its Voronoi vertices, non-convex interior cell refused; boundary cell = hull of {Voronoi vertices, midpoints of the two boundary edges at this site, the site} minus the hull of {midpoints, site} when not convex; the site sits between the midpoints in the polygon handed back; iteration s writes entry s only; inputs not written. Bounded in the number of vertices of ONE cell, unbounded in coordinates; cells with more vertices, coincident / vertically aligned points and qhull itself stay with the bounded family.",
+    "C07": " Fifth session: the per-site rule of compute_voronoi_polygon_areas is under contract on the real code (real numpy on object arrays): the combinatorial structure of one cell is concrete - an interior cell with 4 Voronoi vertices, boundary cells with 1, 2 and 3 Voronoi vertices whose site ends exactly two boundary edges, the site at different positions of the site list - every coordinate is a symbolic real (generic position: pairwise different abscissae) and the two geometric oracles are abstract (convex-hull routine: free area and convexity answers per POINT SET; angular sort: every permutation). Decided for all coordinates and oracle answers: interior cell = hull of its Voronoi vertices, non-convex interior cell refused; boundary cell = hull of {Voronoi vertices, midpoints of the two boundary edges at this site, the site} minus the hull of {midpoints, site} when not convex; the site sits between the midpoints in the polygon handed back; iteration s writes entry s only; inputs not written. Bounded in the number of vertices of ONE cell, unbounded in coordinates; cells with more vertices, coincident / vertically aligned points and qhull itself stay with the bounded family.",
     "C11": " Fifth session: native - time-dependent drives with a fixed step that is not a binary fraction: frames with the same step label carry the same time label and fields, bit for bit, for save intervals 1 / 7 / 20.",
     "C09": " Fifth session: the constructor carries the frame condition 'a solver is a function of its arguments: constructing one writes no module-level state' (candidate, lru_cache tables included; shared with the constructor units of C01, C06, C08, C10, C12, C19); the history harness also runs the 'output path used before' histories in the quick tier, one of them with exactly as many frames as the run under test.",
     "C16": " Fifth session: ARRAY arguments - CompositeParameter.__call__ executed on the instrumented source with array-valued operands (stored arrays, functions returning their input, cached time-dependent operands, complex values) evaluated three times at the same points: pointwise every time, argument arrays and arrays handed out by operand functions not written, operands still evaluate to their own function afterwards (frame condition decided on concrete arrays: whether a call writes to an array it did not create does not depend on the values).",
